@@ -85,6 +85,8 @@ func (w *responseWriter) Write(b []byte) (n int, err error) {
 // Flush get status code
 // Tips: implement the http.Flusher interface.
 func (w *responseWriter) Flush() {
+	// flush will send the header, so must commit the recorded status code before.
+	w.ensureWriteHeader()
 	w.Writer.(http.Flusher).Flush()
 }
 
